@@ -322,6 +322,7 @@ type roundOpts struct {
 	restarts        int
 	addNode         bool
 	lateAddNode     bool
+	evict           int    // nodes forget a prepared statement after this many executions
 	override        bool   // configure a write-consistency override that applies to every write of the workload
 	stallMs         int    // hold back the answer to one heartbeat per data connection for this long
 	holdMs          int    // hold back every scripted answer for this long (requests pile up on the connection)
@@ -457,6 +458,9 @@ func runRound(scs []*reqScenario, nodes, numConns, nclients, workers int, out st
 		}
 		time.Sleep(150 * time.Millisecond)
 		t.Emit("Ready", "hosts", e.HostKeys(), "numconns", numConns)
+	}
+	if ro.evict > 0 {
+		atomic.StoreInt64(&e.C.EvictAfter, int64(ro.evict))
 	}
 	t.Emit("ScenarioStart")
 	if ro.stallMs > 0 {
@@ -699,6 +703,7 @@ func init() {
 		restarts := fs.Int("restarts", 0, "random node restarts per round (connections dropped, prepared statements forgotten)")
 		addNode := fs.Bool("addnode", false, "a node joins after the proxy connected")
 		lateAddNode := fs.Bool("lateaddnode", false, "a node joins after the clients' sessions were created")
+		evict := fs.Int("evict", 0, "nodes forget a prepared statement after this many executions (frequent, concurrent re-preparations)")
 		kinds := fs.String("kinds", "", "comma separated request kinds for random scenarios (query,execute,batch,graph)")
 		stallMs := fs.Int("stall", 0, "answer one heartbeat per data connection this many ms late")
 		holdMs := fs.Int("hold", 0, "hold back every scripted answer this many ms")
@@ -768,7 +773,7 @@ func init() {
 				j = len(scs)
 			}
 			if err := runRound(scs[i:j], *nodes, *numConns, *nclients, *workers, *out, st, *dropRate, int64(k), *maxDelay,
-				roundOpts{compression: *compression, restarts: *restarts, addNode: *addNode, lateAddNode: *lateAddNode, stallMs: *stallMs, holdMs: *holdMs, override: *override, noDrops: *noDrops, idleClose: *idleClose, preCompression: *preCompression, postCompression: *postCompression, churn: *churn, localBursts: *localBursts}); err != nil {
+				roundOpts{compression: *compression, restarts: *restarts, addNode: *addNode, lateAddNode: *lateAddNode, evict: *evict, stallMs: *stallMs, holdMs: *holdMs, override: *override, noDrops: *noDrops, idleClose: *idleClose, preCompression: *preCompression, postCompression: *postCompression, churn: *churn, localBursts: *localBursts}); err != nil {
 				return err
 			}
 		}
